@@ -18,6 +18,7 @@
 #include <orc/orconce.h>
 
 #include "orcinternal.h"
+#include <orc/orcverif.h>
 
 /**
  * SECTION:orc
@@ -45,6 +46,7 @@ orc_init (void)
     orc_global_mutex_lock ();
     if (!inited) {
       ORC_ASSERT(sizeof(OrcExecutor) == sizeof(OrcExecutorAlt));
+      ORC_VERIF_EMIT ("\"e\":\"InitBody\"");
 
       _orc_debug_init();
       _orc_compiler_init();
